@@ -24,19 +24,41 @@ package dig
 //@ func (atype).hasKind props=C10
 //@   requires wfs(t)
 
+// A decoded cell is empty or a sub-range of the input bytes (inside len, not merely cap).
+//@ spec within(s []byte, inp []byte) bool = len(s) == 0 || (base(s) == base(inp) && off(inp) <= off(s) && off(s) + len(s) <= off(inp) + len(inp))
+
 //@ func (*Result).GetRow props=C10
 //@   requires resInv(r)
-//@   ensures [frame] r.ncols == old(r.ncols) && r.n == old(r.n) + 1 && r.t == old(r.t)
+//@   ensures [frame] r.ncols == old(r.ncols) && r.n == old(r.n) + 1 && r.t == old(r.t) && r.singleton == old(r.singleton)
 //@   ensures [n] 0 <= r.n && r.n <= len(r.collection)
 //@   ensures [rows] forall k int :: 0 <= k && k < len(r.collection) ==> rowlen(r.collection, k) == r.ncols
-//@   ensures len(result) == r.ncols
+//@   ensures [row] rowlen(r.collection, r.n - 1) == len(result)
+//@   ensures [len] len(result) == r.ncols
+//@   ensures [cells] forall a mathint, i int :: hp(result, a, i) == old(hp(result, a, i)) || len(hp(result, a, i)) == 0
 
 // C10: no precondition on input at all. No panic, no read beyond len(input)
 // (strict_slices: every slice expression must end within len, not cap).
 //@ func scan props=C10 strict_slices
 //@   requires res != nil && resInv(res) && len(r) == res.ncols && wfs(t) && wfp(t, res.ncols)
-//@   ensures [inv] resInv(res) && res.ncols == old(res.ncols)
-//@   loop#0 invariant resInv(res) && res.ncols == old(res.ncols) && len(r) == res.ncols
-//@   loop#0 invariant 0 <= pos && pos <= len(input) + 0x10000000000 && 0 <= start && start <= 32 && 0 <= i
-//@   loop#1 invariant resInv(res) && res.ncols == old(res.ncols)
+//@   ensures [inv] resInv(res) && res.ncols == old(res.ncols) && res.singleton == old(res.singleton) && res.t == old(res.t)
+//@   ensures [subrange] forall a mathint, i int :: hp(r, a, i) == old(hp(r, a, i)) || within(hp(r, a, i), input)
+//@   loop#0 invariant resInv(res) && res.ncols == old(res.ncols) && len(r) == res.ncols && res.singleton == old(res.singleton) && res.t == old(res.t)
+//@   loop#0 invariant 0 <= pos && pos <= len(input) + 0x10000000000 && 0 <= start && start <= 32 && 0 <= i && 32*i <= pos
+//@   loop#0 invariant forall a mathint, k int :: hp(r, a, k) == old(hp(r, a, k)) || within(hp(r, a, k), input)
+//@   loop#0 decreases len(input) + 0x10000000000 - pos
+//@   loop#1 invariant resInv(res) && res.ncols == old(res.ncols) && res.singleton == old(res.singleton) && res.t == old(res.t)
 //@   loop#1 invariant 0 <= pos && pos <= len(input) + 0x10000000000
+//@   loop#1 invariant forall a mathint, k int :: hp(r, a, k) == old(hp(r, a, k)) || within(hp(r, a, k), input)
+
+//@ func (*Result).Scan props=C10 strict_slices
+//@   requires len(r.singleton) == r.ncols && 0 <= r.ncols && r.ncols < 0x10000000000 && wfs(r.t) && wfp(r.t, r.ncols)
+//@   requires forall k int :: 0 <= k && k < len(r.collection) ==> rowlen(r.collection, k) == r.ncols
+//@   ensures [inv] resInv(r) && r.ncols == old(r.ncols) && r.singleton == old(r.singleton)
+//@   ensures [subrange] forall a mathint, i int :: hp(r.singleton, a, i) == old(hp(r.singleton, a, i)) || within(hp(r.singleton, a, i), input)
+//@   loop#0 invariant resInv(r) && r.ncols == old(r.ncols) && r.singleton == old(r.singleton) && 0 <= i
+//@   loop#0 invariant forall j int :: 0 <= j && j < len(r.singleton) ==> within(r.singleton[j], input)
+//@   loop#0 invariant forall a mathint, k int :: hp(r.singleton, a, k) == old(hp(r.singleton, a, k)) || within(hp(r.singleton, a, k), input)
+//@   loop#1 invariant resInv(r) && r.ncols == old(r.ncols) && r.singleton == old(r.singleton) && 0 <= i && i < r.n && 0 <= j
+//@   loop#1 invariant rowlen(r.collection, i) == r.ncols
+//@   loop#1 invariant forall j int :: 0 <= j && j < len(r.singleton) ==> within(r.singleton[j], input)
+//@   loop#1 invariant forall a mathint, k int :: hp(r.singleton, a, k) == old(hp(r.singleton, a, k)) || within(hp(r.singleton, a, k), input)
